@@ -35,9 +35,14 @@ theorem custom_hooks_uniform : customHooksUniform sites = true := by decide
 def knownShadow (s : List Site) : Bool :=
   !(readSites s .h3).isEmpty && (readSites s .h3).all (fun x => x.decl = .stackLocal)
 
-/-- The regenerated table is the repaired one or exactly the known defect. -/
-theorem h3_source_repaired_or_known : uniformSource sites = true ∨ knownShadow sites = true := by
+/-- The regenerated table is the repaired one: every stack's dial site reads the client's
+shared options (the shadowing field was removed by /repo commit c693bda; re-introducing a
+stack-local `TLSClientConfig` breaks this obligation). -/
+theorem h3_source_repaired : uniformSource sites = true := by
   decide
+
+theorem h3_source_repaired_or_known : uniformSource sites = true ∨ knownShadow sites = true :=
+  Or.inl h3_source_repaired
 
 /-- `tls_uniform` with its premise discharged over the regenerated table (left disjunct on a
 tree where the HTTP/3 dial site reads the shared options). -/
